@@ -11,7 +11,7 @@ CONSTANTS
     MaxFrames = 5
     MaxTasks = 2
     MaxDepth = 3
-    Panics = FALSE
+    Panics = TRUE
     MaxSpans = 4
     IncomingKinds <- MC_IncAll
     WithLazy = TRUE
